@@ -213,7 +213,9 @@ def resize : Nat → QF → Option Int → R QF
             | (_, some e) => .error e
 end
 
-def budgetOf (s : QF) : Nat := 80
+/-- recursion budget of `add_alt`/`resize`/`merge`: one unit per re-inserted hash plus the nesting of
+    automatic resizes (each doubles the table, so they nest only logarithmically); generous -/
+def budgetOf (s : QF) : Nat := 4 * s.count.toNat + 128
 
 /-- `remove`'s left-shift loop -/
 def removeShift : Nat → QF → Nat → Nat → R (QF × Nat × Nat)
@@ -291,7 +293,7 @@ def checkAlt (s : QF) (h : Nat) : R Bool :=
   | .ok r => .ok r.isSome
 
 /-- `merge(second)` given the hashes of the other filter; an error leaves a partial merge -/
-def merge (s : QF) (hs : List Nat) : QF × Option Err := addAll (budgetOf s) s hs
+def merge (s : QF) (hs : List Nat) : QF × Option Err := addAll (budgetOf s + 4 * hs.length) s hs
 
 end QF
 end PyProb
